@@ -96,6 +96,21 @@ fn scenario(kind: u8, with_ref: bool, extra: u8, fee_mode: u8) -> Result<bool, S
         tb.set_donation(&bn(9_000_000));
         produced += 9_000_000;
     }
+    if extra == 6 {
+        // two more inputs locked by the SAME native script whose sources declare DIFFERENT required signers
+        let script = native_script(70);
+        let mut ib2 = ib.clone();
+        for (n, signer) in [(0u8, 70u8), (1u8, 71u8)] {
+            let mut src = NativeScriptSource::new(&script);
+            let mut ks = Ed25519KeyHashes::new();
+            ks.add(&kh(signer));
+            src.set_required_signers(&ks);
+            ib2.add_native_script_input(&src, &TransactionInput::new(&TransactionHash::from([4u8; 32]), n as u32), &Value::new(&bn(50_000_000)));
+            signers.push(signer);
+            consumed += 50_000_000;
+        }
+        tb.set_inputs(&ib2);
+    }
     tb.add_output(&TransactionOutput::new(&addr(0, 50), &Value::new(&bn(10_000_000)))).map_err(|_| format!("{}: add_output failed", tag))?;
     if fee_mode == 1 { tb.set_min_fee(&bn(2_000_000)); }
     if tb.add_change_if_needed(&addr(1, 60)).is_err() { return Ok(false); }
@@ -153,13 +168,13 @@ pub fn builder_battery<S: Src>(_s: &mut S) {
     let mut released = 0;
     for kind in 0..4u8 {
         for with_ref in [false, true] {
-            for extra in 0..6u8 {
+            for extra in 0..7u8 {
                 for fee_mode in 0..2u8 {
                     match scenario(kind, with_ref, extra, fee_mode) { Ok(true) => released += 1, Ok(false) => (), Err(e) => failures.push(e) }
                 }
             }
         }
     }
-    assert!(failures.is_empty(), "{} of 96 builder scenarios violate the property; first: {}", failures.len(), failures[0]);
-    if std::env::var("VERIF_BATTERY_VERBOSE").is_ok() { eprintln!("battery: {} of 96 scenarios released a transaction", released); }
+    assert!(failures.is_empty(), "{} of 112 builder scenarios violate the property; first: {}", failures.len(), failures[0]);
+    if std::env::var("VERIF_BATTERY_VERBOSE").is_ok() { eprintln!("battery: {} of 112 scenarios released a transaction", released); }
 }
